@@ -69,9 +69,9 @@ static void do_settimer(src_t *s, int sid, int opid, long start_off, long interv
 
 static void event_handler(int sid) {
 	src_t *s = &SRC[sid];
-	uint64_t now = s->type == T_TIMER ? clock_ns(clk_of(s->clock)) : 0;
 	int inv = atomic_fetch_add(&s->invocations, 1) + 1;
 	uint64_t data = dispatch_source_get_data(s->ds);
+	uint64_t now = s->type == T_TIMER ? clock_ns(clk_of(s->clock)) : 0;     // read AFTER get_data: an upper bound for the boundaries it counts
 	int nested = atomic_fetch_add(&s->in_handler, 1);
 	logev(EV_HANDLER, sid, inv, (int64_t)data);
 	if (nested) logev(EV_CHKFAIL, sid, 20, nested);       // the executor's own re-entrancy counter (the oracle also checks the stamps)
